@@ -84,7 +84,7 @@ theorem lw_exec_other (P : Prog) (hn : 0 < P.n) (s s' : State) (t : Nat) (ht : t
   have hmain : (s'.th 0).code = (s.th 0).code ∧ (s'.th 0).waiting = (s.th 0).waiting ∧
       (s'.th 0).deadline = (s.th 0).deadline ∧ ((s'.th 0).woken = false → (s.th 0).woken = false) ∨
       ((s'.th 0).code = [] ∧ (s'.th 0).waiting = false) := by
-    rcases o0 with h1 | h1 | ⟨_, _, h1⟩ | ⟨_, h1⟩
+    rcases o0 with h1 | h1 | ⟨_, _, _, h1⟩ | ⟨_, h1⟩
     · rw [h1]; exact Or.inl ⟨rfl, rfl, rfl, id⟩
     · rw [h1]; exact Or.inl ⟨rfl, rfl, rfl, by simp⟩
     · rw [h1]; exact Or.inr ⟨rfl, rfl⟩
@@ -175,7 +175,7 @@ theorem wakeInv_thr (P : Prog) (hn : 0 < P.n) (hja : ∀ k, k ≠ 0 → Action.j
       have hst : (s.th k).status ≠ .notCreated := by
         have := ownStep_status' P s s' k h; exact this
       have e : (s'.th k).wFunc = (s.th k).wFunc := by
-        rcases step_cases P s s' k h with ⟨_, rfl⟩ | ⟨_, _, _, rfl⟩ | ⟨_, _, _, rfl⟩ | ⟨_, rfl⟩ | ⟨_, _, rfl⟩ | ⟨_, i, rest, _, he⟩
+        rcases step_cases P s s' k h with ⟨_, rfl⟩ | ⟨_, _, _, rfl⟩ | ⟨_, _, _, rfl⟩ | ⟨_, rfl⟩ | ⟨_, _, _, rfl⟩ | ⟨_, i, rest, _, he⟩
         · simp
         · simp
         · simp
@@ -185,7 +185,7 @@ theorem wakeInv_thr (P : Prog) (hn : 0 < P.n) (hja : ∀ k, k ≠ 0 → Action.j
         · simp
         · exact (exec_own P s s' k i rest he).2.2.1
       rw [e]; exact hi.wfunc k hst
-    · rcases oth k hkt with h1 | h1 | ⟨_, _, h1⟩ | ⟨h0, h1⟩
+    · rcases oth k hkt with h1 | h1 | ⟨_, _, _, h1⟩ | ⟨h0, h1⟩
       · rw [h1] at hk ⊢; exact hi.wfunc k hk
       · rw [h1] at hk ⊢; exact hi.wfunc k hk
       · rw [h1]
@@ -193,7 +193,7 @@ theorem wakeInv_thr (P : Prog) (hn : 0 < P.n) (hja : ∀ k, k ≠ 0 → Action.j
   · -- decSig
     by_cases hkt : k = t
     · subst hkt
-      rcases step_cases P s s' k h with ⟨_, rfl⟩ | ⟨_, _, _, rfl⟩ | ⟨_, _, _, rfl⟩ | ⟨_, rfl⟩ | ⟨_, _, rfl⟩ | ⟨_, i, rest, hcd, he⟩
+      rcases step_cases P s s' k h with ⟨_, rfl⟩ | ⟨_, _, _, rfl⟩ | ⟨_, _, _, rfl⟩ | ⟨_, rfl⟩ | ⟨_, _, _, rfl⟩ | ⟨_, i, rest, hcd, he⟩
       · simpa using decSig_map_act _
       · simpa using hi.decsig k
       · simpa using hi.decsig k
